@@ -100,6 +100,11 @@ def check(repo, rep):
                 ok = e is not None and e != 0 and (e < 0) == (sign < 0) and abs(e) <= 1e-6
                 rep.ob('%s conversion carries a small non-zero tolerance whose sign opposes the rounding direction (%s)' % (rnd, 'negative for ceil' if sign < 0 else 'positive for floor'),
                        ok, w, '%s:%s' % ('split', pn), 'tolerance of the %s conversion is %r' % (pn, e))
+                # magnitude: it has to absorb the rounding error of the float quotient, about 2**-53 * q for q windows;
+                # below 1e-12 it fails for a few thousand windows (machine epsilon already fails for 0.07/0.01)
+                if e is not None and e != 0:
+                    rep.ob('the tolerance is large enough to absorb the rounding error of duration / window (|eps| >= 1e-12)', abs(e) >= 1e-12, w, 'split:%s-tolerance-magnitude' % pn,
+                           'tolerance of the %s conversion is %r: smaller than the rounding error of quotients such as 0.07/0.01 = 7.000000000000001' % (pn, e))
             windows.append((pn, cv['window']))
         if windows:
             same = all(wt == windows[0][1] for _, wt in windows)
@@ -179,7 +184,7 @@ def check(repo, rep):
     rep.explanation = ('Conversion sites and guard table of split() decided from provenance terms on every path: min_dur -> ceil with a NEGATIVE tolerance, max_dur and max_silence -> floor with a '
                        'POSITIVE tolerance, all three over the same window; the window is the reader\'s block duration for AudioReader inputs, otherwise FirstOf(kwargs; analysis_window, aw; default), '
                        'and the reader is framed with that same window; split() raises ValueError exactly for the 7 documented guards and for nothing else, and every successful path has passed the '
-                       'three sign checks. NOT decided: float numerics, nor whether the magnitude 1e-10 honours the "within 1e-9" wording (only: non-zero, right sign, <= 1e-6).')
+                       'three sign checks. NOT decided: float numerics, nor whether the magnitude 1e-10 honours the "within 1e-9" wording (only: non-zero, right sign, 1e-12 <= |eps| <= 1e-6).')
     rep.assumptions = ['C02/C03 bound token lengths and silence runs by the window counts passed here']
     rep.analysed['functions'] = ['core.split', 'core._duration_to_nb_windows', 'util._FixedSizeAudioReader.__init__']
 
